@@ -58,6 +58,11 @@ let print_tok b (t : tok) =
   | TFRange (lo, hi) -> Buffer.add_string b ("f~" ^ string_of_z lo ^ "~" ^ string_of_z hi)
   | TNoPanic -> Buffer.add_string b "!P"
 
+(* the platform sine on IEEE bit patterns: the oracle the ET / TDB model is parametrised by *)
+let sin_bits (v : z) : z =
+  let x = Int64.float_of_bits (Int64.of_string ("0u" ^ string_of_z v)) in
+  z_of_string (Printf.sprintf "%Lu" (Int64.bits_of_float (sin x)))
+
 let print_toks b ts =
   List.iteri (fun i t -> if i > 0 then Buffer.add_char b ' '; print_tok b t) ts
 
@@ -71,7 +76,7 @@ let () =
        | [] | [""] -> Buffer.add_string b "SKIP"
        | name :: rest ->
          let args = List.map parse_tok (List.filter (fun s -> s <> "") rest) in
-         (match dispatch (coq_string name) args with
+         (match dispatch sin_bits (coq_string name) args with
           | None -> Buffer.add_string b "UNKNOWN"
           | Some (m, s) -> print_toks b m; Buffer.add_string b " | "; print_toks b s));
       print_endline (Buffer.contents b)
